@@ -142,18 +142,15 @@ func (fr *FileReader) readNextBlock() (*Block, error) {
 	// CompressedSize comes from the file and is not covered by any checksum: never
 	// allocate it before checking it against what is actually left of the file
 	// (a damaged or forged header could otherwise request up to 4 GiB).
-	// The outcomes are the ones io.ReadFull would have produced: io.EOF when
-	// nothing follows the header, io.ErrUnexpectedEOF when the data is cut short.
+	// A block whose payload is cut short is the torn tail of an interrupted append:
+	// like a short header, it is the end of the data (io.EOF).
 	info, err := fr.file.Stat()
 	if err != nil {
 		return nil, err
 	}
 	remaining := info.Size() - (offset + BlockHeaderSize)
 	if int64(blockHeader.CompressedSize) > remaining {
-		if remaining <= 0 {
-			return nil, io.EOF
-		}
-		return nil, io.ErrUnexpectedEOF
+		return nil, io.EOF
 	}
 	// Read compressed data
 	compressedData := make([]byte, blockHeader.CompressedSize)
